@@ -7,6 +7,8 @@ differential runs of engine `net`, not proved.
 import Drand.Net.Protocol
 import DrandProofs.C02
 import DrandProofs.C07Net
+import DrandProofs.C07Chain
+import DrandProofs.C07Repaired
 
 namespace Drand.Net
 
